@@ -1065,10 +1065,17 @@ def slice_to_inclusive_slice(
         key: slice,
         offset: int = 0,
         ) -> slice:
-    '''Make a stop exclusive key inclusive by adding one to the stop value.
+    '''Make a stop exclusive key inclusive by moving the stop value one further in the direction of the step.
     '''
     start = None if key.start is None else key.start + offset
-    stop = None if key.stop is None else key.stop + 1 + offset
+    if key.stop is None:
+        stop = None
+    elif key.step is not None and key.step < 0:
+        stop = key.stop - 1 + offset
+        if stop < 0:
+            stop = None # the stop is the first position
+    else:
+        stop = key.stop + 1 + offset
     return slice(start, stop, key.step)
 
 
